@@ -58,7 +58,12 @@ func get(tag string) uint64 {
 	if n > 0 {
 		tag = fmt.Sprintf("%s#%d", tag, n)
 	}
-	return model[tag]
+	if v, ok := model[tag]; ok {
+		return v
+	}
+	// a value the counterexample does not constrain: a fixed pseudo-random one
+	d := sha256.Sum256([]byte("absent:" + tag))
+	return binary.BigEndian.Uint64(d[:8])
 }
 
 func U8(tag string) uint8   { return uint8(get(tag)) }
@@ -130,6 +135,27 @@ func Ite64(c bool, a, b uint64) uint64 {
 		return a
 	}
 	return b
+}
+
+// TranscriptLeak natively: reports a failure if two 16-byte windows of the
+// transcript differ by R (or a window equals R) in this concrete run.
+func TranscriptLeak(tag string, r0, r1 uint64, tr []byte) {
+	n := len(tr) - 15
+	win := func(k int) (uint64, uint64) {
+		return binary.BigEndian.Uint64(tr[k:]), binary.BigEndian.Uint64(tr[k+8:])
+	}
+	for a := 0; a < n; a++ {
+		ah, al := win(a)
+		if ah == r0 && al == r1 {
+			Failed = append(Failed, fmt.Sprintf("%s: R itself is transmitted at offset %d", tag, a))
+		}
+		for b := a + 1; b < n; b++ {
+			bh, bl := win(b)
+			if ah^bh == r0 && al^bl == r1 {
+				Failed = append(Failed, fmt.Sprintf("%s: transcript offsets %d and %d differ by R", tag, a, b))
+			}
+		}
+	}
 }
 
 // HexString formats the value given by little-endian 64-bit limbs as "0x" +
